@@ -48,6 +48,10 @@ type RaceCase struct {
 	// Mock: two tasks also write to a fresh mockstore, starting with its very
 	// first transactions
 	Mock [][]string `json:"mock,omitempty"`
+	// HoldServe: while Serve is making its subscriptions it is only
+	// scheduled when nothing else can run, so the producers' calls and the
+	// callbacks they start fall into the starting phase
+	HoldServe bool `json:"hold_serve,omitempty"`
 	// Overlap: the next epoch is served by another goroutine as soon as
 	// Shutdown returned, whether or not the previous Serve call has
 	Overlap bool `json:"overlap,omitempty"`
@@ -72,6 +76,7 @@ func (RaceScenario) GenCase(r *rand.Rand, prop string) interface{} {
 		}
 	}
 	c.StdLog = chance(r, 30)
+	c.HoldServe = chance(r, 30)
 	for _, p := range optionalPoints {
 		if chance(r, 60) {
 			c.Optional = append(c.Optional, p)
@@ -466,6 +471,17 @@ func (RaceScenario) Execute(sim *sched.Sim, ci interface{}, prop string, race bo
 			return ms >= 0 && int(sim.Step()) >= ms && rr.isStarted(ep)
 		}
 		acts := sim.Enabled(filter)
+		if c.HoldServe && len(acts) > 1 {
+			var rest []sched.Action
+			for _, a := range acts {
+				if !strings.Contains(a.Label, "@conn.Subscribe(") {
+					rest = append(rest, a)
+				}
+			}
+			if len(rest) > 0 {
+				acts = rest
+			}
+		}
 		if len(acts) == 0 {
 			if allDone {
 				break
